@@ -163,7 +163,10 @@ def coq_msg(desc):
     if k == "C":
         inner = t[1].strip()[1:-1]
         return "MUnknownCSI %s" % C.zlist([int(x) for x in inner.split()] if inner else [])
-    raise C.Fail("unparseable message from the harness: %r" % desc)
+    # a message type the decoder did not have when the Spec was written: no specified event decodes to it, so it is
+    # rendered as a message nothing in the Spec or the model produces (an "unknown byte" outside 0..255) and the input
+    # is reported as a mismatch
+    return "MUnknownByte 4096"
 
 
 def coq_msgs(descs):
@@ -586,6 +589,23 @@ def run_family(res, prop, prop_mod, cases, dcases=None, spec_on_streams=True, ru
                           "real decoder output differs from the specified messages for a well-formed event stream",
                           {"events": [list(e) for e in c["evs"]], "chunks": c["chunks"], "real": o})
             found = True
+    # a pasted KeyMsg prints as "[text]", never like a key press (that is how applications tell the two apart)
+    bad_str = []
+    for i, o in enumerate(routs):
+        for d, st in zip(o.get("msgs") or [], o.get("strs") or []):
+            m = re.match(r'K (-?\d+) \[([0-9 ]*)\] (true|false) true$', d)
+            if m:
+                text = "".join(chr(int(x)) for x in m.group(2).split())
+                if st != "[" + text + "]":
+                    bad_str.append((i, text, st))
+                    break
+    if any(o.get("strs") for o in routs):
+        res.oblige("Spec on real output: a paste message prints as [text], never as the key it would be if typed", not bad_str,
+                   [(t[:20], s_[:20]) for _, t, s_ in bad_str[:2]])
+    for i, text, st in bad_str[:1]:
+        res.violation("%s:paste-string" % prop, "the paste message for %r prints as %r: indistinguishable from typed input" % (text[:40], st[:40]),
+                      {"chunks": cases[i]["chunks"], "real": routs[i]})
+        found = True
     # generic real-output predicates: no panic, no stall, stop reason as scripted
     bad_total = []
     for i, (c, o) in enumerate(zip(cases, routs)):
